@@ -285,6 +285,10 @@ func (g *c23Gateway) OnFrameIn(ev gatewaytypes.FrameEvent) {
 		return
 	}
 	t.mu.Lock()
+	if len(t.slots) > 200000 { // a server that re-dispatches the same bytes forever: fail fast, not OOM
+		t.mu.Unlock()
+		panic("c23: runaway dispatch loop in the gateway inbound path")
+	}
 	if ev.FrameType == "SEND" {
 		t.sendIx = append(t.sendIx, len(t.slots))
 		t.slots = append(t.slots, "")
@@ -348,6 +352,12 @@ func (g *c23Gateway) feed(sv int, chunks [][]byte) (frames []string, left int, c
 	t.mu.Lock()
 	for t.sends < len(t.sendIx) && time.Now().Before(deadline) {
 		t.mu.Unlock()
+		if _, cl := g.srv.VerifInboundState("l", conn.id); cl {
+			// a closed session may drop its queued SENDs: give them a short grace period only
+			if time.Until(deadline) > 200*time.Millisecond {
+				deadline = time.Now().Add(200 * time.Millisecond)
+			}
+		}
 		time.Sleep(50 * time.Microsecond)
 		t.mu.Lock()
 	}
@@ -492,7 +502,9 @@ func (r *c23Runner) observe(sv int, cutsTok string, data []byte) string {
 	}
 	gwsig := func(fr []string, left int, closed bool) string {
 		if closed {
-			left = 0
+			// a closed session may or may not still deliver its queued SENDs (timing):
+			// only the number of dispatched frames is compared then
+			return fmt.Sprintf("%d,0,1,0", len(fr))
 		}
 		return sig(fr, left, closed)
 	}
